@@ -120,12 +120,20 @@ def extract_default(
     quote_mark = None  # the quotation mark of the string the scan is inside of, if any
     sub_l = line[_end_idx:]
     sub_l_len = len(sub_l)
+    # A value written as code is fenced with back-ticks: nothing between the fences ends it (```np.float32```)
+    unfenced = sub_l.lstrip(" \t`")
+    fence = sub_l[: sub_l_len - len(unfenced)].strip(" \t")
+    closing_fence = unfenced.find(fence) if fence else -1
+    fenced_upto = (
+        sub_l_len - len(unfenced) + closing_fence + len(fence) if closing_fence > -1 else 0
+    )
     for idx, ch in enumerate(sub_l):
         if quote_mark is not None:
             if ch == quote_mark:
                 quote_mark = None
         elif (
-            ch == "."
+            idx >= fenced_upto
+            and ch == "."
             and (idx == (sub_l_len - 1) or not (sub_l[idx + 1]).isdigit())
             and par["{"] == par["}"]
             and par["["] == par["]"]
